@@ -51,7 +51,8 @@ type flushInfo struct {
 	Bar       ssa.Value // the iterated bar
 	Frame     ssa.Value // the received frame
 	PushFn    *ssa.Function
-	PendClo   *ssa.Function // local "remember to push" closure, if any
+	Pend      []pendFn        // "remember to push" functions, if any
+	DrainAt   ssa.Instruction // where the remembered pushes are performed (loop header or helper call in flush)
 	Paths     []*flushPath
 	Over      bool
 	PopCount  *ssa.Phi
@@ -74,72 +75,96 @@ func (w *World) heapPushFn() *ssa.Function {
 	return nil
 }
 
-// pendingClosure: a closure made in fn that appends {param0,param1} to a captured slice which
-// fn later drains completely, calling pushFn(elem.bar, elem.sync) once per element.
-func (w *World) pendingClosure(fn, pushFn *ssa.Function) *ssa.Function {
-	for _, c := range fn.AnonFuncs {
-		if len(c.Params) != 2 || len(c.Blocks) != 1 || len(c.FreeVars) != 1 {
+// pendFn: a function that remembers (bar, sync) for a later push: it appends a two-field record
+// built from two of its parameters to a slice cell - a variable captured from flush (a local
+// closure) or a cell whose address it is given (a method on a queue type) - which flush later
+// drains completely, calling pushFn(elem.bar, elem.sync) once per element.
+type pendFn struct {
+	Fn      *ssa.Function
+	BarArg  int // index into the call's Args
+	SyncArg int
+	CellArg int // index of the argument carrying the cell's address; -1: captured variable
+	Cell    *ssa.Alloc // captured cell (closure form)
+}
+
+func (w *World) pendingFns(fn, pushFn *ssa.Function) []pendFn {
+	var out []pendFn
+	cands := append([]*ssa.Function(nil), fn.AnonFuncs...)
+	for _, f := range w.ModFns {
+		if f.Pkg == fn.Pkg && f.Parent() == nil && f != fn && f.Blocks != nil && len(f.Params) >= 2 && len(f.Params) <= 3 && !w.anchors()[f] {
+			cands = append(cands, f)
+		}
+	}
+	for _, c := range cands {
+		if len(c.Blocks) != 1 {
 			continue
 		}
-		// stores to the captured cell of an append whose first operand is the load of the same cell
-		okAppend := false
+		pf := pendFn{Fn: c, BarArg: -1, SyncArg: -1, CellArg: -1}
+		var cell ssa.Value
 		paramStores := 0
 		for _, in := range c.Blocks[0].Instrs {
 			st, ok := in.(*ssa.Store)
 			if !ok {
 				continue
 			}
-			if st.Addr == ssa.Value(c.FreeVars[0]) {
-				if call, ok := st.Val.(*ssa.Call); ok && isBuiltinCall(&call.Call, "append") {
-					if ld, ok := call.Call.Args[0].(*ssa.UnOp); ok && ld.Op == token.MUL && ld.X == ssa.Value(c.FreeVars[0]) {
-						okAppend = true
+			if call, ok := st.Val.(*ssa.Call); ok && isBuiltinCall(&call.Call, "append") {
+				if ld, ok := call.Call.Args[0].(*ssa.UnOp); ok && ld.Op == token.MUL && ld.X == st.Addr {
+					switch st.Addr.(type) {
+					case *ssa.FreeVar, *ssa.Parameter:
+						cell = st.Addr
 					}
 				}
 			}
 			if p, ok := st.Val.(*ssa.Parameter); ok && p.Parent() == c {
 				if _, ok := st.Addr.(*ssa.FieldAddr); ok {
-					paramStores++
+					for i, q := range c.Params {
+						if q != p {
+							continue
+						}
+						paramStores++
+						if typeName(p.Type()) == tBar {
+							pf.BarArg = i
+						} else if types.Identical(p.Type(), types.Typ[types.Bool]) {
+							pf.SyncArg = i
+						}
+					}
 				}
 			}
 		}
-		if !okAppend || paramStores != 2 {
+		if cell == nil || paramStores != 2 || pf.BarArg < 0 || pf.SyncArg < 0 {
 			continue
 		}
-		// the drain loop in fn
-		binds := freeVarBindings(c.FreeVars[0])
-		if len(binds) != 1 {
-			continue
+		switch x := cell.(type) {
+		case *ssa.FreeVar:
+			if c.Parent() != fn {
+				continue
+			}
+			binds := freeVarBindings(x)
+			if len(binds) != 1 {
+				continue
+			}
+			al, ok := binds[0].(*ssa.Alloc)
+			if !ok || w.drainPoint(fn, al, pushFn) == nil {
+				continue
+			}
+			pf.Cell = al
+		case *ssa.Parameter:
+			for i, q := range c.Params {
+				if q == x {
+					pf.CellArg = i
+				}
+			}
 		}
-		cell, ok := binds[0].(*ssa.Alloc)
-		if !ok {
-			continue
-		}
-		if w.drainsCellWithPush(fn, cell, pushFn) {
-			return c
-		}
+		out = append(out, pf)
 	}
-	return nil
+	return out
 }
 
-func (w *World) drainsCellWithPush(fn *ssa.Function, cell *ssa.Alloc, pushFn *ssa.Function) bool {
-	for _, l := range naturalLoops(fn) {
-		// range-index loop over a load of the cell: header compares index with len(load cell)
-		var lenCall *ssa.Call
-		for _, in := range l.Header.Instrs {
-			if bin, ok := in.(*ssa.BinOp); ok && bin.Op == token.LSS {
-				if c, ok := bin.Y.(*ssa.Call); ok && isBuiltinCall(&c.Call, "len") {
-					lenCall = c
-				}
-			}
-		}
-		if lenCall == nil {
-			continue
-		}
-		ld, ok := lenCall.Call.Args[0].(*ssa.UnOp)
-		if !ok || ld.Op != token.MUL || ld.X != ssa.Value(cell) {
-			continue
-		}
-		// no store to the cell between the load and the loop, none inside the loop
+// drainPoint: the place in fn where the cell's records are pushed, one pushFn(elem...) per
+// element: the header of a loop over the cell in fn itself, or fn's call of a helper that
+// receives the cell (its value or address) and loops over it. nil: not drained.
+func (w *World) drainPoint(fn *ssa.Function, cell *ssa.Alloc, pushFn *ssa.Function) ssa.Instruction {
+	oncePerElem := func(f *ssa.Function, l *loopInfo) bool {
 		var body *ssa.BasicBlock
 		for _, s := range l.Header.Succs {
 			if l.Blocks[s] {
@@ -147,10 +172,10 @@ func (w *World) drainsCellWithPush(fn *ssa.Function, cell *ssa.Alloc, pushFn *ss
 			}
 		}
 		if body == nil {
-			continue
+			return false
 		}
 		good := true
-		n, _ := w.enumPaths(fn, pathOpts{Start: body, StopAt: func(b *ssa.BasicBlock) bool { return b == l.Header }}, func(p *Path) {
+		n, _ := w.enumPaths(f, pathOpts{Start: body, StopAt: func(b *ssa.BasicBlock) bool { return b == l.Header }}, func(p *Path) {
 			c := 0
 			for _, ev := range p.Events {
 				if call, ok := ev.In.(*ssa.Call); ok && call.Call.StaticCallee() == pushFn {
@@ -161,11 +186,59 @@ func (w *World) drainsCellWithPush(fn *ssa.Function, cell *ssa.Alloc, pushFn *ss
 				good = false
 			}
 		})
-		if good && n > 0 {
-			return true
+		return good && n > 0
+	}
+	// the slice a loop ranges over: header compares the index with len(x)
+	rangedSlice := func(l *loopInfo) ssa.Value {
+		for _, in := range l.Header.Instrs {
+			if bin, ok := in.(*ssa.BinOp); ok && bin.Op == token.LSS {
+				if c, ok := bin.Y.(*ssa.Call); ok && isBuiltinCall(&c.Call, "len") {
+					return c.Call.Args[0]
+				}
+			}
+		}
+		return nil
+	}
+	isCellLoad := func(v ssa.Value) bool {
+		ld, ok := v.(*ssa.UnOp)
+		return ok && ld.Op == token.MUL && ld.X == ssa.Value(cell)
+	}
+	for _, l := range naturalLoops(fn) {
+		if x := rangedSlice(l); x != nil && isCellLoad(x) && oncePerElem(fn, l) {
+			return l.Header.Instrs[0]
 		}
 	}
-	return false
+	for _, b := range fn.Blocks {
+		for _, in := range b.Instrs {
+			call, ok := in.(*ssa.Call)
+			if !ok {
+				continue
+			}
+			d := call.Call.StaticCallee()
+			if d == nil || d.Blocks == nil || d.Pkg != fn.Pkg || w.anchors()[d] {
+				continue
+			}
+			for i, a := range call.Call.Args {
+				if i >= len(d.Params) || !(isCellLoad(a) || a == ssa.Value(cell)) {
+					continue
+				}
+				par := d.Params[i]
+				for _, l := range naturalLoops(d) {
+					x := rangedSlice(l)
+					if x == nil {
+						continue
+					}
+					if ld, ok := x.(*ssa.UnOp); ok && ld.Op == token.MUL {
+						x = ld.X
+					}
+					if x == ssa.Value(par) && oncePerElem(d, l) {
+						return in
+					}
+				}
+			}
+		}
+	}
+	return nil
 }
 
 func (w *World) analyseFlush() *flushInfo {
@@ -178,19 +251,19 @@ func (w *World) analyseFlush() *flushInfo {
 		fi.Undecided = "heap push request constructor not found"
 		return fi
 	}
-	fi.PendClo = w.pendingClosure(fi.Fn, fi.PushFn)
+	fi.Pend = w.pendingFns(fi.Fn, fi.PushFn)
 	var rangeRecv *commOp
-	for _, op := range w.Comm().byFn[fi.Fn] {
-		if op.Kind == "recv" && op.CommaOk {
-			rangeRecv = op
+	for _, il := range w.iterLoops(fi.Fn) {
+		if il.Fn == fi.Fn && il.Loop != nil && il.Body != nil {
+			rangeRecv = il.Op
+			fi.Header = il.Loop.Header
+			fi.Body = il.Body
 		}
 	}
 	if rangeRecv == nil {
 		fi.Undecided = "no range over the ordered iterator in flush"
 		return fi
 	}
-	fi.Header = rangeRecv.Instr.Block()
-	fi.Body = fi.Header.Succs[0]
 	// iterated bar = extract #0 of the range receive
 	for _, ref := range *rangeRecv.Instr.(*ssa.UnOp).Referrers() {
 		if ex, ok := ref.(*ssa.Extract); ok && ex.Index == 0 {
@@ -239,7 +312,14 @@ func (w *World) analyseFlush() *flushInfo {
 		}
 	}
 	isSelfBar := func(v Val) bool { return stripConv(v.V) == fi.Bar }
-	_, over := w.enumPaths(fi.Fn, pathOpts{InlineDepth: 0, Start: fi.Body, StopAt: func(b *ssa.BasicBlock) bool { return b == fi.Header }}, func(p *Path) {
+	var opaque []*ssa.Function
+	pendOf := map[*ssa.Function]pendFn{}
+	for _, pf := range fi.Pend {
+		opaque = append(opaque, pf.Fn)
+		pendOf[pf.Fn] = pf
+	}
+	var cells []*ssa.Alloc
+	_, over := w.enumPaths(fi.Fn, pathOpts{InlineDepth: 2, Inline: w.helperInline(fi.Fn, opaque...), Start: fi.Body, StopAt: func(b *ssa.BasicBlock) bool { return b == fi.Header }}, func(p *Path) {
 		fp := &flushPath{P: p, Shutdown: -1}
 		if p.Exit != "stop" {
 			fp.ExitsEarly = true
@@ -265,7 +345,7 @@ func (w *World) analyseFlush() *flushInfo {
 					setTri(&fp.RmOnCompl, c.Pol)
 				default:
 					if ex, ok := x.V.(*ssa.Extract); ok && ex.Index == 1 {
-						if lk, ok := ex.Tuple.(*ssa.Lookup); ok && lk.CommaOk && isLoad(Val{V: lk.X}, tPState, "queueBars") && lk.Index == fi.Bar {
+						if lk, ok := ex.Tuple.(*ssa.Lookup); ok && lk.CommaOk && isLoad(Val{V: lk.X}, tPState, "queueBars") && stripConv(p.R(Val{lk.Index, x.F, x.E}).V) == fi.Bar {
 							setTri(&fp.LookupOK, c.Pol)
 							fp.LookupVal = lk
 						}
@@ -309,15 +389,29 @@ func (w *World) analyseFlush() *flushInfo {
 			case sc == fi.PushFn && len(call.Call.Args) == 3:
 				b := p.val(ev, call.Call.Args[1])
 				fp.Retains = append(fp.Retains, retainEv{ev.Idx, b, p.val(ev, call.Call.Args[2]), isSelfBar(b)})
-			case fi.PendClo != nil && sc == fi.PendClo && len(call.Call.Args) == 2:
-				b := p.val(ev, call.Call.Args[0])
-				fp.Retains = append(fp.Retains, retainEv{ev.Idx, b, p.val(ev, call.Call.Args[1]), isSelfBar(b)})
+			case sc != nil && pendOf[sc].Fn != nil:
+				pf := pendOf[sc]
+				if pf.BarArg >= len(call.Call.Args) || pf.SyncArg >= len(call.Call.Args) {
+					break
+				}
+				b := p.val(ev, call.Call.Args[pf.BarArg])
+				fp.Retains = append(fp.Retains, retainEv{ev.Idx, b, p.val(ev, call.Call.Args[pf.SyncArg]), isSelfBar(b)})
+				if pf.CellArg >= 0 && pf.CellArg < len(call.Call.Args) {
+					al, _ := w.origin(p.val(ev, call.Call.Args[pf.CellArg]).V).(*ssa.Alloc)
+					if al == nil || al.Parent() != fi.Fn {
+						fi.Undecided = "a bar is remembered in a list that is not a local of flush"
+					} else {
+						cells = append(cells, al)
+					}
+				} else if pf.Cell != nil {
+					cells = append(cells, pf.Cell)
+				}
 			case isBuiltinCall(&call.Call, "delete"):
-				if isLoad(Val{V: call.Call.Args[0]}, tPState, "queueBars") && call.Call.Args[1] == fi.Bar {
+				if isLoad(Val{V: call.Call.Args[0]}, tPState, "queueBars") && stripConv(p.val(ev, call.Call.Args[1]).V) == fi.Bar {
 					fp.DeleteIdx = append(fp.DeleteIdx, ev.Idx)
 				}
 			default:
-				if f, ok := loadedField(call.Call.Value); ok && f.Owner == tBar && f.Name == "cancel" && f.Base == fi.Bar {
+				if f, ok := loadedField(call.Call.Value); ok && f.Owner == tBar && f.Name == "cancel" && stripConv(p.val(ev, f.Base).V) == fi.Bar {
 					fp.CancelIdx = append(fp.CancelIdx, ev.Idx)
 				}
 			}
@@ -336,6 +430,18 @@ func (w *World) analyseFlush() *flushInfo {
 		fi.Paths = append(fi.Paths, fp)
 	})
 	fi.Over = over
+	// one pending list, drained by flush
+	for _, c := range cells {
+		if c != cells[0] {
+			fi.Undecided = "bars are remembered in more than one pending list"
+		}
+	}
+	if len(cells) > 0 && fi.Undecided == "" {
+		fi.DrainAt = w.drainPoint(fi.Fn, cells[0], fi.PushFn)
+		if fi.DrainAt == nil {
+			fi.Undecided = "the list of remembered bars is never pushed back to the heap (no loop in flush, or in a helper it calls, that pushes every element once)"
+		}
+	}
 	return fi
 }
 
@@ -540,8 +646,8 @@ func ruleSuccessorSwap(w *World, r *Report, pfx string, fi *flushInfo) {
 			if !ok || f.Owner != tBar || f.Name != "priority" {
 				continue
 			}
-			if bx, ok := f.Base.(*ssa.Extract); ok && bx.Tuple == fp.LookupVal {
-				if lf, ok := loadedField(stripConv(v.V)); ok && lf.Owner == tBar && lf.Name == "priority" && lf.Base == fi.Bar {
+			if bx, ok := stripConv(fp.P.val(ev, f.Base).V).(*ssa.Extract); ok && bx.Tuple == fp.LookupVal {
+				if lf, ok := loadedField(stripConv(v.V)); ok && lf.Owner == tBar && lf.Name == "priority" && stripConv(fp.P.R(Val{lf.Base, v.F, v.E}).V) == fi.Bar {
 					inherited = true
 				}
 			}
@@ -571,7 +677,7 @@ func rulePopMode(w *World, r *Report, pfx string, fi *flushInfo) {
 			if !ok {
 				continue
 			}
-			if f.Owner == tBar && f.Name == "priority" && f.Base == fi.Bar {
+			if f.Owner == tBar && f.Name == "priority" && stripConv(p.val(ev, f.Base).V) == fi.Bar {
 				prioStores = append(prioStores, fieldStore{ev.Idx, ev, f, v})
 			}
 			if f.Owner == tPState && f.Name == "popPriority" {
@@ -630,6 +736,25 @@ func rulePopMode(w *World, r *Report, pfx string, fi *flushInfo) {
 			}
 			if usedRowsCounter(other) {
 				okUsed = true
+			}
+			// the counter returned by a private helper that fits the bar's rows
+			if ex, ok := other.(*ssa.Extract); ok {
+				if call, ok := ex.Tuple.(*ssa.Call); ok {
+					if h := call.Call.StaticCallee(); h != nil && h.Blocks != nil && w.unit(fi.Fn)[h] {
+						all, nRet := true, 0
+						for _, b := range h.Blocks {
+							if ret, ok := b.Instrs[len(b.Instrs)-1].(*ssa.Return); ok && ex.Index < len(ret.Results) {
+								nRet++
+								if !usedRowsCounter(ret.Results[ex.Index]) {
+									all = false
+								}
+							}
+						}
+						if all && nRet > 0 {
+							okUsed = true
+						}
+					}
+				}
 			}
 		}
 		r.Check(okUsed, pfx+".F-POPROWS", "popped-row amount", w.pos(fi.PopCount.Pos()), "the amount is the per-bar counter incremented with each appended row", "the popped-row count is not advanced by the number of rows this bar actually contributed")
